@@ -8,9 +8,10 @@ refuse with a RopeError and leave the tree untouched.  Deliberately bad regions 
 middle of a word, spanning a block start) exercise refusal.
 """
 import ast
+import os
 import sys
 
-from vlib import behave, core, flowref, srcpos
+from vlib import behave, core, flowfam, flowref, srcpos
 
 ID = "C03"
 READY = True
@@ -21,10 +22,10 @@ RULE = ("projects from pygen profile 'flow' (self-validated by running them); re
         "scope kind, statement/expression classes of the region, options, outcome)")
 ASSUMPTIONS = ["generated sub-expressions are pure and total, so evaluation order changes of pure code are invisible "
                "by construction", "programs are in fragment F of DESIGN.md 3.1"]
-BUDGET = {"quick": (400, 75), "thorough": (20000, 900)}
+BUDGET = {"quick": (240, 300), "thorough": (20000, 900)}
 EXHAUSTIVE = {}
 CASE_TIMEOUT = 600
-REQUIRE = {"performed_and_run": 300, "refused": 50}
+REQUIRE = {"performed_and_run": 300, "refused": 50, "family_performed_and_run": 2000, "family_refused": 100}
 TECHNIQUE = ("differential execution: the refactored program is run and its output compared with the original's; "
              "refusals are checked against rope's error hierarchy and a tree snapshot")
 LEVEL_TEXT = ("Thousands of extraction requests over generated programs are performed by the real code and each "
@@ -37,9 +38,24 @@ DESIGN_REF = "DESIGN.md section 5, C03"
 REGIONS_PER_FILE = {"quick": 14, "thorough": 40}
 
 
+FAMILY_BATCH = 20
+FAMILY_QUICK_BATCHES = 120
+
+
 def cases(tier, seed):
+    """pygen hosts interleaved with batches of the enumerated data-flow family (vlib/flowfam.py): the quick
+    tier samples FAMILY_QUICK_BATCHES batches, the thorough tier walks the whole family once."""
+    import random
+    total = flowfam.total()
+    if tier == "quick":
+        r = random.Random(f"{seed}/C03/family")
+        fam = [sorted(r.sample(range(total), FAMILY_BATCH)) for _ in range(FAMILY_QUICK_BATCHES)]
+    else:
+        fam = [list(range(k, min(k + FAMILY_BATCH, total))) for k in range(0, total, FAMILY_BATCH)]
     i = 0
     while True:
+        if i < len(fam):
+            yield {"seed": f"{seed}/C03/family/{i}", "family": fam[i]}
         yield {"seed": f"{seed}/C03/{i}", "pseed": seed * 1000003 + i}
         i += 1
 
@@ -253,8 +269,63 @@ def enumerate_regions(src, rnd, limit):
     return picked
 
 
+def run_family(spec):
+    """One batch of family programs: every contiguous run of loop-body statements is extracted."""
+    from rope.base import exceptions
+    from rope.base.project import Project
+    from rope.refactor.extract import ExtractMethod
+    res = core.Result()
+    with core.Scratch() as tmp:
+        os.makedirs(tmp + "/p")
+        project = Project(tmp + "/p", ropefolder=None, automatic_soa=False, save_history=False, save_objectdb=False)
+        mod = project.root.create_file("m.py")
+        for k in spec["family"]:
+            body, loop, after = flowfam.nth(k)
+            src, regions = flowfam.build(body, loop, after)
+            before = flowfam.run(src)
+            if before[0] != "ok":
+                res.ev("family_programs_skipped:" + before[0])
+                continue
+            res.ev("family_programs")
+            mod.write(src)
+            for start, end, (i, j) in regions:
+                kinds = "+".join(flowfam.VOCAB[x][0] for x in body[i:j + 1])
+                res.evals()
+                detail = {"program": k, "source": src, "region_text": src[start:end], "loop": loop, "after": after}
+                try:
+                    changes = ExtractMethod(project, mod, start, end).get_changes("extracted_q")
+                except exceptions.RopeError:
+                    res.ev("family_refused")
+                    res.outcome("refused")
+                    continue
+                except Exception as e:
+                    res.violation(f"extract-family|internal:{core.exc_sig(e)}", f"internal exception: {e!r}"[:300], **detail)
+                    continue
+                new_src = changes.changes[0].new_contents
+                after_run = flowfam.run(new_src)
+                res.ev("family_performed_and_run")
+                res.shape(["family", loop, after, kinds, after_run[0]])
+                if after_run == before:
+                    res.outcome("preserved")
+                    continue
+                detail["new_source"] = new_src
+                detail["before"], detail["after_run"] = before, after_run
+                if after_run[0] == "syntax":
+                    res.violation(f"extract-family|syntax-error|loop={loop}|region={kinds}", "result does not compile: " + after_run[1], **detail)
+                    continue
+                cause, feat = flowref.classify_method_extraction(src, start, end, new_src)
+                tail = f"cause={cause}" + (f"({feat})" if feat else "")
+                if "unexplained" in cause:
+                    tail += f"|loop={loop}|region={kinds}"
+                res.violation(f"extract-family|behaviour|{tail}", f"behaviour changed ({after_run[0]})", **detail)
+        project.close()
+    return res
+
+
 def run_case(spec):
     import os
+    if "family" in spec:
+        return run_family(spec)
     from rope.refactor.extract import ExtractMethod, ExtractVariable
     res = core.Result()
     rnd = core.rng(spec)
